@@ -2,9 +2,15 @@ package rp
 
 import (
 	"bytes"
+	"context"
+	"encoding/base64"
+	"encoding/hex"
 	"encoding/json"
 	"encoding/pem"
 	"fmt"
+	gcmd "github.com/google/gce-tcb-verifier/gcetcbendorsement/cmd"
+	"google.golang.org/protobuf/encoding/prototext"
+	"io"
 	"os"
 	"os/exec"
 	"strings"
@@ -339,30 +345,145 @@ func RunC17(run *vk.Run) {
 		sevBaseB = append(sevBaseB, unknown...)
 		tdxBaseB, _ := proto.Marshal(&tcpb.Policy{TdQuoteBodyPolicy: &tcpb.TDQuoteBodyPolicy{MinimumTeeTcbSvn: bytes.Repeat([]byte{1}, 16)}})
 		tdxBaseB = append(tdxBaseB, unknown...)
-		for _, ow := range []bool{false, true} {
-			args := []string{"sev", "policy", "endo.bin", "--base", "base.bin", "--launch_vmsas", "2", "--out", "out.bin", "--outform", "bin"}
-			if ow {
-				args = append(args, "--overwrite")
+		decodeForm := func(form string, b []byte) ([]byte, error) {
+			switch form {
+			case "hex":
+				return hex.DecodeString(strings.TrimSpace(string(b)))
+			case "base64":
+				return base64.StdEncoding.DecodeString(strings.TrimSpace(string(b)))
 			}
-			out, cerr := RunCLI(map[string][]byte{"endo.bin": eb, "base.bin": sevBaseB}, time.Time{}, nil, args...)
-			base := &cpb.Policy{}
-			_ = proto.Unmarshal(sevBaseB, base)
-			want, werr := gtb.SevPolicy(ctx, e, &gtb.SevPolicyOptions{Base: base, LaunchVmsas: 2, Overwrite: ow})
-			got := &cpb.Policy{}
-			run.Case(fmt.Sprintf("cli-sev-policy-base:%v", ow), true)
-			if cerr != nil || werr != nil || proto.Unmarshal(out["out.bin"], got) != nil || !proto.Equal(got, want) || !bytes.Contains(out["out.bin"], []byte("kept for a newer reader")) {
-				run.Violation("base-fields-lost:sev:command", fmt.Sprintf("`sev policy ENDORSEMENT --base FILE` (overwrite %v) does not give what SevPolicy gives for the base in FILE (command error %v, library error %v): fields of the base are not carried over (the base holds two fields outside this build's schema)", ow, cerr, werr), nil)
+			return b, nil
+		}
+		// every combination of the policy commands' flags: the command writes what the library returns for
+		// the options the flags spell (base file or none, overwrite, count / RAM size, allow-unspecified),
+		// in the form asked for, to the file or to standard output
+		type combo struct {
+			base, ow, unspec bool
+			n                int
+			form, out        string
+		}
+		var combos []combo
+		for _, b := range []bool{false, true} {
+			for _, ow := range []bool{false, true} {
+				for _, n := range []int{0, 1, 2} {
+					for _, form := range []string{"bin", "hex", "base64", "textproto", ""} {
+						for _, out := range []string{"out.bin", "-"} {
+							for _, un := range []bool{false, true} {
+								combos = append(combos, combo{b, ow, un, n, form, out})
+							}
+						}
+					}
+				}
 			}
 		}
-		{
-			out, cerr := RunCLI(map[string][]byte{"endo.bin": eb, "base.bin": tdxBaseB}, time.Time{}, nil, "tdx", "policy", "endo.bin", "--base", "base.bin", "--ram_gib", "16", "--out", "out.bin", "--outform", "bin")
-			base := &tcpb.Policy{}
-			_ = proto.Unmarshal(tdxBaseB, base)
-			want, werr := gtb.TdxPolicy(ctx, e, &gtb.TdxPolicyOptions{Base: base, RAMGiB: 16})
-			got := &tcpb.Policy{}
-			run.Case("cli-tdx-policy-base", true)
-			if cerr != nil || werr != nil || proto.Unmarshal(out["out.bin"], got) != nil || !proto.Equal(got, want) || !bytes.Contains(out["out.bin"], []byte("kept for a newer reader")) {
-				run.Violation("base-fields-lost:tdx:command", fmt.Sprintf("`tdx policy ENDORSEMENT --base FILE` does not give what TdxPolicy gives for the base in FILE (command error %v, library error %v): fields of the base are not carried over (the base holds two fields outside this build's schema)", cerr, werr), nil)
+		for _, tech := range []string{"sev", "tdx"} {
+			for _, c := range combos {
+				if tech == "tdx" && c.unspec {
+					continue
+				}
+				files := map[string][]byte{"endo.bin": eb}
+				args := []string{tech}
+				var sevB *cpb.Policy
+				var tdxB *tcpb.Policy
+				if c.base {
+					args = append(args, "--base", "base.bin")
+					if tech == "sev" {
+						files["base.bin"] = sevBaseB
+						sevB = &cpb.Policy{}
+						_ = proto.Unmarshal(sevBaseB, sevB)
+					} else {
+						files["base.bin"] = tdxBaseB
+						tdxB = &tcpb.Policy{}
+						_ = proto.Unmarshal(tdxBaseB, tdxB)
+					}
+				}
+				if c.ow {
+					args = append(args, "--overwrite")
+				}
+				val := 0
+				if tech == "sev" {
+					val = []int{0, 2, 8}[c.n]
+					if val != 0 {
+						args = append(args, "--launch_vmsas", fmt.Sprint(val))
+					}
+					if c.unspec {
+						args = append(args, "--allow_unspecified_vmsas")
+					}
+				} else {
+					val = []int{0, 16, 64}[c.n]
+					if val != 0 {
+						args = append(args, "--ram_gib", fmt.Sprint(val))
+					}
+				}
+				args = append(args, "policy", "endo.bin")
+				if c.out != "-" {
+					args = append(args, "--out", c.out)
+				}
+				if c.form != "" {
+					args = append(args, "--outform", c.form)
+				}
+				pio := &memIO{files: files}
+				root := gcmd.MakeRoot(gcmd.ContextWithBackend(context.Background(), &gcmd.Backend{IO: pio}))
+				root.SetArgs(args)
+				root.SetOut(io.Discard)
+				root.SetErr(io.Discard)
+				root.SilenceErrors, root.SilenceUsage = true, true
+				var cerr error
+				func() {
+					defer func() {
+						if p := recover(); p != nil {
+							cerr = fmt.Errorf("PANIC: %v", p)
+						}
+					}()
+					cerr = root.Execute()
+				}()
+				var written []byte
+				if w := pio.out[c.out]; w != nil {
+					written = w.b
+				}
+				var want proto.Message
+				var got proto.Message
+				var werr error
+				if tech == "sev" {
+					var p *cpb.Policy
+					p, werr = gtb.SevPolicy(ctx, e, &gtb.SevPolicyOptions{Base: sevB, Overwrite: c.ow, LaunchVmsas: uint32(val), AllowUnspecifiedVmsas: c.unspec})
+					want, got = p, &cpb.Policy{}
+				} else {
+					var p *tcpb.Policy
+					p, werr = gtb.TdxPolicy(ctx, e, &gtb.TdxPolicyOptions{Base: tdxB, Overwrite: c.ow, RAMGiB: val})
+					want, got = p, &tcpb.Policy{}
+				}
+				run.Case(fmt.Sprintf("cli-policy:%s:%+v", tech, c), true)
+				what := fmt.Sprintf("`%s`", strings.Join(args, " "))
+				if cerr != nil && strings.HasPrefix(cerr.Error(), "PANIC") {
+					run.Violation("command-panics:"+tech, fmt.Sprintf("%s panics: %v", what, cerr), nil)
+					continue
+				}
+				if (cerr == nil) != (werr == nil) {
+					run.Violation("command-differs-from-library:"+tech+":outcome", fmt.Sprintf("%s ends with error %v; the library call the flags spell ends with error %v", what, cerr, werr), map[string]any{"args": args})
+					continue
+				}
+				if cerr != nil {
+					continue
+				}
+				var derr error
+				switch c.form {
+				case "textproto":
+					derr = prototext.Unmarshal(written, got)
+					// (text form does not carry unknown fields: compare the known ones)
+					w2 := proto.Clone(want)
+					w2.ProtoReflect().SetUnknown(nil)
+					want = w2
+				default: // "" = auto: standard output / the file is not a terminal, so binary
+					var raw []byte
+					raw, derr = decodeForm(c.form, written)
+					if derr == nil {
+						derr = proto.Unmarshal(raw, got)
+					}
+				}
+				if derr != nil || !proto.Equal(got, want) {
+					run.Violation("command-differs-from-library:"+tech+":policy", fmt.Sprintf("%s writes a policy (%d bytes, decode error %v) that is not the one the library derives for the options the flags spell", what, len(written), derr), map[string]any{"args": args})
+				}
 			}
 		}
 	}
